@@ -220,6 +220,15 @@ class Gen(object):
             if i['min_unit'] > i['max_unit']:
                 i['max_unit'] = i['min_unit']
             return i
+        if cur and 65536 % cur['den'] == 0 and cur['total'] < 1000 and self.rnd.random() < 0.08:
+            # the same record, the ratio moved by 2^-16 (or moved back)
+            i = dict(cur)
+            if cur['den'] == 65536:
+                i['num'], i['den'] = (cur['num'] + 32768) // 65536 or 1, 1
+            else:
+                i['num'] = cur['num'] * (65536 // cur['den']) + self.rnd.choice([1, -1])
+                i['den'] = 65536
+            return i
         i = self.inv()
         used = self.used(st, u, k)
         if used and self.rnd.random() < 0.7:
@@ -469,8 +478,11 @@ class Gen(object):
 
     def spell(self, req):
         """Now and then a consumer's uuid is written in upper case: the same
-        uuid, hence the same consumer."""
+        uuid, hence the same consumer; and a parent's uuid in another of the
+        forms the uuid format admits (API!Readings)."""
         r = self.rnd
+        if req.get('op') in ('rp_create', 'rp_update') and req['parent'] not in ('', 'null') and r.random() < 0.15:
+            req['pspell'] = r.choice(['upper', 'upper', 'nodash', 'braces'])
         if req.get('op') in ('alloc_put', 'alloc_get', 'alloc_del') and r.random() < 0.08:
             req['cspell'] = 'upper'
         if req.get('op') in ('alloc_post', 'reshape'):
